@@ -166,8 +166,11 @@ int main(void)
 			int rc;
 
 			if (o[0] == 'i') {
+				/* a node object handed to insert holds arbitrary old contents: vary the garbage
+				 * (0x01 looks like a stale height-1 leaf, as after delete + re-insert of the same object) */
+				static const unsigned char garbage[4] = { 0xaa, 0x01, 0x00, 0x02 };
 				struct node *n = malloc(sizeof(*n));
-				memset(n, 0xaa, sizeof(*n));
+				memset(n, garbage[(unsigned long)key % 4], sizeof(*n));
 				n->key = key;
 				rc = iv_avl_tree_insert(&tree, &n->an);
 				if (rc < 0)
